@@ -3,6 +3,14 @@
 Proofs : coq/theories/Props/C01.v  (reference semantics `eval` of Lang/Eval.v is a function of the
          program: fuel monotonicity; first-match semantics of `match`; short-circuit operators;
          effect log only grows; record-update order).
+Permitted difference (property C04): with the optimiser ON an unused built-in arithmetic operation
+         may be skipped, so its overflow / division by zero does not occur.  harness c01.rs
+         `permitted_arith_skip` decides it: the reference outcome is Arith, the unoptimised run of the
+         same program matches the reference exactly, and the checked-arithmetic node N at which the
+         reference fails (located by marker failures placed at / right after each candidate node) (or an
+         enclosing failure-free, effect-free expression) has an unused result: both P[N:=0] and P[N:=1]
+         evaluate to the implementation's outcome, directly or after further permitted skips (depth 3).  Such a case is
+         compared against P[N:=0] and counted as `permitted_arith_skips`.
 Tie C  : the extracted `eval` (coq/extract/c01) against gluon's `ThreadExt::run_expr` on
          corpus + all well-typed programs up to a small size + type-directed random programs with
          interaction combinators, each printed in two concrete-syntax styles and run with the
@@ -126,6 +134,10 @@ def run(ctx):
         cov["distinct_nontrivial"] = stats["distinct_nontrivial"]
         cov["rule"] = stats["rule"]
         cov["traces_validated_against_impl"] = compared
+        # optimised runs in which an unused checked-arithmetic operation was skipped (the one
+        # difference property C04 permits): compared against the reference outcome of the program
+        # with exactly those operations replaced by a literal; the unoptimised twin matched exactly
+        cov["permitted_arith_skips"] = stats.get("permitted_arith_skips", 0)
         cov["exhaustive"] = True
         cov["exhaustive_bound"] = (
             "all well-typed closed programs with at most %d AST nodes over the alphabet of mg::generate::enumerate "
